@@ -158,6 +158,73 @@ def run(ctx):
                 rep.ok("D3-R-SENT", where(f), "add_constant_str@no-index-use", "result never used as index")
     if sites < 2:
         raise AnalysisBroken("expected >=2 call sites of orc_program_add_constant_str in orcparse.c, found %d" % sites)
+    # ... the same for every other constructor the parser calls: whichever of them can return a negative value, the parser must not
+    # use that value as a variable index - neither in a subscript of its own nor by handing it to a function that subscripts an
+    # array with that parameter without testing it (orc_program_set_var_alignment, orc_program_set_type_name ...)
+    from flow import lower_bound
+    negret = {}
+
+    def neg_returns(name):
+        if name not in negret:
+            try:
+                g_ = db.func(name)
+                negret[name] = sorted(v for v in returned_constants(g_) if isinstance(v, int) and v < 0) if g_.body is not None else []
+            except AnalysisBroken:
+                negret[name] = []
+        return negret[name]
+    idxparam = {}
+
+    def indexing_params(h):
+        """indices of parameters h uses as an array subscript without a lower bound of its own"""
+        if h.name not in idxparam:
+            out = set()
+            fh = None
+            for x in h.walk():
+                if x.k == "ArraySubscriptExpr":
+                    ix = strip_casts(x.c[1])
+                    if ix is not None and ix.k == "DeclRefExpr" and ix.get("dk") == "param":
+                        fh = fh or Facts(h)
+                        lb = lower_bound(fh.conds(x), ix.name)
+                        if lb is None or lb < 0:
+                            out |= {i for i, pr in enumerate(h.params) if pr["name"] == ix.name}
+            idxparam[h.name] = out
+        return idxparam[h.name]
+    n3b = 0
+    for f in pfuncs:
+        fc = None
+        for call in f.calls():
+            if not call.name or call.name == "orc_program_add_constant_str" or not call.name.startswith("orc_program_add_"):
+                continue
+            n3b += 1
+            neg_ = neg_returns(call.name)
+            p = call.parent
+            while p is not None and p.k in ("ParenExpr", "CStyleCastExpr", "ImplicitCastExpr"):
+                p = p.parent
+            var = access_path(p.c[0]) if p is not None and p.k == "BinaryOperator" and p.op == "=" else (p.name if p is not None and p.k == "VarDecl" else None)
+            if not neg_ or var is None:
+                rep.ok("D3-R-SENT", where(f), "%s@%s" % (call.name, call.line), "returns no negative value / result not kept" if not neg_ else "result not kept")
+                continue
+            fc = fc or Facts(f)
+            bad = None
+            for x in f.walk():
+                if x.k == "CallExpr" and x is not call and x.name and f.dominates(call, x):
+                    for j, a in enumerate(x.args()):
+                        if access_path(strip_casts(a)) == var:
+                            try:
+                                h = db.func(x.name)
+                            except AnalysisBroken:
+                                continue
+                            if h.body is not None and j in indexing_params(h):
+                                lb = lower_bound(fc.conds(x), var)
+                                if lb is None or lb < 0:
+                                    bad = bad or (x, h.name)
+            rep.check(bad is None, "D3-R-SENT", where(f), "%s@%s" % (call.name, call.line),
+                      "the (possibly negative) result of %s is tested before it is used as a variable index" % call.name,
+                      "%s keeps the result of %s, which can be %s, in `%s` and passes it to %s, which uses it as an array subscript without a test: "
+                      "vars[-1] is written (inside the program object, in front of the variable table)" %
+                      ((f.name, call.name, neg_, var, bad[1]) if bad else ("",) * 5), line=bad[0].line if bad else call.line)
+    if n3b < 5:
+        raise AnalysisBroken("only %d calls of orc_program_add_* constructors found in the parser" % n3b)
 
     # ---- D5: NULL-terminated vectors ------------------------------------
     d5(db, rep, tu)
